@@ -9,14 +9,14 @@ ID = 'C13'
 ENGINE = 'detsched'
 TECHNIQUE = 'runtime monitoring: random start/stop/clear/subscribe/publish/active-object histories against a small executable model of the fabric, run under a deterministic cooperative scheduler; thread-census invariant at every Thread.start and operation boundary; exact deadlock detection'
 RULE = ('random operation sequences (3-15) over {fabric.start, fabric.stop, fabric.clear, subscribe, publish, start an active object, post to an '
-        'active object, FAULT (a lifo subscriber whose append raises, which kills the lifo delivery thread only)}, including repeated start / stop and clear while running, each operation followed by quiescence (delivery threads and '
+        'active object, PUB_STOP (1-3 publications immediately followed by stop(), so that stop() arrives while deliveries are in flight), FAULT (a lifo subscriber whose append raises, which kills the lifo delivery thread only)}, including repeated start / stop and clear while running, each operation followed by quiescence (delivery threads and '
         'objects interleaved by detsched). Invariants: at every Thread.start and after every operation at most one live fifo and one live lifo '
         'delivery thread; is_alive() == both live; after stop() none live; a publication made while running reaches exactly its current '
         'subscribers once; after stop(); start() a fresh subscription + publication is delivered; an active object that wakes while the '
         'fabric is stopped halts without dispatching; no operation deadlocks. distinct_nontrivial = distinct operation-kind sequences')
 CASES = {'quick': 2000, 'thorough': 100000}
 BUDGET = {'quick': 150, 'thorough': 300}
-REQUIRE = {'sequences': 800, 'ops': 8000, 'repeated_start': 300, 'restart_after_stop': 300, 'clear_while_running': 200, 'object_wakes_while_stopped': 60, 'start_after_partial_failure': 100}
+REQUIRE = {'sequences': 800, 'ops': 8000, 'repeated_start': 300, 'restart_after_stop': 300, 'clear_while_running': 200, 'object_wakes_while_stopped': 60, 'start_after_partial_failure': 50, 'stop_with_publications_in_flight': 300}
 ASSUME = ['operations are issued by one thread, each followed by quiescence; publications made while the fabric is stopped are not constrained']
 ANNOUNCE_CASES = True
 ROLES = ('thread_runner_fifo', 'thread_runner_lifo')
@@ -43,7 +43,7 @@ def census(s):
 def run_case(ctx, n):
   rng = ctx.rng('case', n)
   nops = rng.randint(3, 15)
-  kinds = ['start', 'start', 'stop', 'stop', 'clear', 'sub', 'sub', 'pub', 'pub', 'ao_start', 'ao_post', 'ao_post', 'fault']
+  kinds = ['start', 'start', 'stop', 'stop', 'clear', 'sub', 'sub', 'pub', 'pub', 'ao_start', 'ao_post', 'ao_post', 'fault', 'pub_stop', 'pub_stop']
   ops = [rng.choice(kinds) for _ in range(nops)]
   if rng.random() < 0.5:
     ops = ['start'] + ops
@@ -84,7 +84,15 @@ def run_case(ctx, n):
           for a in aos:
             if a['state'] == 'doomed':
               a['state'] = 'alive'
-        elif op == 'stop':
+        elif op in ('stop', 'pub_stop'):
+          if op == 'pub_stop':
+            # stop() arrives while publications are still in flight (no quiescence in between): whether they are delivered
+            # is not constrained, but stop() must end both threads and a later start() must resume delivery
+            for _ in range(rng.randint(1, 3)):
+              uid[0] += 1
+              fabric.publish(Event(signal=rng.choice(sigs), payload=uid[0]))
+            if model['running']:
+              ctx.count('stop_with_publications_in_flight')
           fabric.stop()
           if model['running']:
             model['stopped_once'] = True
